@@ -269,9 +269,14 @@ def run(c, chk):
     # R10.7: a call of the wrong type can only be refused where the type is tested
     c09.typed_members(c, chk, 'R10.7')
     index_bound(c, chk)
+    from . import c04
+    chk.rule('R10.10', 'unconvertible text is refused: the conversion discipline of C04 (no digits, trailing garbage, out of range each lead to a refusal before the store)')
+    sub4 = report.SubCheck(chk, 'R10.10', 'C04', only=('R4.1', 'R4.2', 'R4.3', 'R4.4', 'R4.5', 'R4.10', 'R4.12'))
+    c04.run(c, sub4)
+    sub4.done('conversion discipline')
     from . import c14
-    chk.rule('R10.9', 'the pre-set validation callback judges the very value that would be stored (rule R14.5 of C14): a veto based on anything else does not protect the option')
-    sub = report.SubCheck(chk, 'R10.9', 'C14', only=('R14.5',))
+    chk.rule('R10.9', 'the pre-set validation callback judges the very value that would be stored, and every section instance inherits it (rules R14.5, R14.8 of C14): a veto that is not consulted does not protect the option')
+    sub = report.SubCheck(chk, 'R10.9', 'C14', only=('R14.5', 'R14.8'))
     c14.run(c, sub)
     sub.done('pre-set validator')
 
